@@ -125,7 +125,11 @@ def classify(fn):
             elif isinstance(first, ast.Name) and (first.id in loopvars or
                                                   any(isinstance(a, ast.Assign) and ast.unparse(a.targets[0]) == first.id
                                                       for a in ast.walk(lp))):
-                kinds.add("scatter")           # mask comes with / is computed for the loop item
+                # mask comes with / is computed for the loop item; the value written must be the item's own
+                # result (a name) or a per-bucket constant looked up in a dict, nothing computed from the batch
+                plain = isinstance(val, ast.Name) or (isinstance(val, ast.Call) and isinstance(val.func, ast.Attribute)
+                                                      and val.func.attr == "get")
+                kinds.add("scatter" if plain else "unknown")
             else:
                 kinds.add("unknown")
         appends = [n for n in ast.walk(lp) if isinstance(n, ast.Call) and isinstance(n.func, ast.Attribute)
@@ -682,13 +686,20 @@ def search(ctx, hints):
     rng = ctx.rng
     items = []
     names = menu_names()
-    for rep in range(ctx.pick(2, 24)):
+    for rep in range(ctx.pick(4, 24)):
         for nm in names:
             items.append({"kind": "estimator", "estimator": nm, "gen_seed": rng.randrange(1 << 30)})
     items.append({"kind": "criterion", "gen_seed": rng.randrange(1 << 30)})
     vs, evals, nontriv, samples = [], 0, set(), []
     for it in items:
-        bad, info = _run(ctx, it)
+        try:
+            bad, info = _run(ctx, it)
+        except Exception as e:      # the real code raised where the statement promises a result
+            import traceback
+            bad, info = [("%s:raises-on-valid-input" % it.get("estimator", it["kind"]),
+                          "the estimator raises on a valid batch",
+                          "%s: %s | %s" % (type(e).__name__, str(e)[:150], traceback.format_exc()[-300:]),
+                          "a result")], {}
         evals += 1
         nontriv.add((it["kind"], it.get("estimator"), it["gen_seed"]))
         if len(samples) < 4:
